@@ -27,6 +27,8 @@ pub struct Assoc {
     held: Vec<Arc<DataChannel>>,
     _out_rx: tokio::sync::mpsc::UnboundedReceiver<Bytes>,
     _in_tx: tokio::sync::mpsc::UnboundedSender<Bytes>,
+    alloc_fail: Option<String>,
+    alloc_max_x100: u64,
 }
 
 fn fold(b: &[u8]) -> u64 { b.iter().fold(7u64, |a, x| (a * 31 + *x as u64) % 4294967296) }
@@ -50,7 +52,7 @@ impl Assoc {
                 &rustrtc::RtcConfiguration::default());
             (sctp, dc_rx, out_rx, in_tx)
         });
-        let mut a = Assoc { rt, sctp, port, chan_rx, held: vec![], _out_rx: out_rx, _in_tx: in_tx };
+        let mut a = Assoc { rt, sctp, port, chan_rx, held: vec![], _out_rx: out_rx, _in_tx: in_tx, alloc_fail: None, alloc_max_x100: 0 };
         if is_client { let s = a.sctp.clone(); let _ = a.rt.block_on(async move { s.verif_send_init().await }); let _ = hk::trace_take(port); a.drain_out(); }
         a
     }
@@ -61,7 +63,13 @@ impl Assoc {
     pub fn feed(&mut self, pkt: &[u8]) -> (String, Vec<Vec<u8>>) {
         let s = self.sctp.clone();
         let p = Bytes::copy_from_slice(pkt);
+        let a0 = super::alloc_read();
         let r = self.rt.block_on(async move { s.verif_handle_packet(p).await });
+        // allocation traffic of this one packet: ≤ 2·(64·len + 32 KiB) + 512 (amortised growth of the channel list; an INIT costs an INIT-ACK with cookie and HMAC, a DCEP OPEN a ≈ 2.6 KB channel + ACK)
+        let used = super::alloc_read().saturating_sub(a0);
+        let lim = 2 * (64 * pkt.len() as u64 + 32_768) + 512;
+        self.alloc_max_x100 = self.alloc_max_x100.max(used * 100 / (64 * pkt.len() as u64 + 32_768));
+        if used > lim && self.alloc_fail.is_none() { self.alloc_fail = Some(format!("{used} bytes allocated while handling a packet of {} bytes (limit {lim}): {}", pkt.len(), hex(pkt))); }
         self.drain_out();
         let mut ev: Vec<String> = vec![];
         let mut cookies = vec![];
@@ -233,7 +241,7 @@ pub fn run_session(run: &mut Run, rng: &mut Rng, is_client: bool, replay: Option
     let mut steps: Vec<Step> = vec![];
     let mut outs: Vec<String> = vec![];
     let mut panicked: Option<String> = None;
-    let total_len;
+    let total_len; let alloc_fail; let alloc_max;
     {
         let mut a = Assoc::new(is_client, seed_tsn);
         let mut feed = |a: &mut Assoc, p: Vec<u8>, steps: &mut Vec<Step>, outs: &mut Vec<String>| -> Vec<Vec<u8>> {
@@ -278,11 +286,14 @@ pub fn run_session(run: &mut Run, rng: &mut Rng, is_client: bool, replay: Option
                 let cum = a.cum(); let p = gen_packet(rng, cum, &cookies, &mut req_sn, peer_tag); feed(&mut a, p, &mut steps, &mut outs); }
         }
         total_len = steps.iter().map(|s| s.bytes.len() as u64).sum::<u64>();
+        alloc_fail = a.alloc_fail.take(); alloc_max = a.alloc_max_x100;
     }
     let text = case_text(is_client, seed_tsn, &steps);
     if let Some(msg) = &panicked {
         run.fail(&format!("panic:SctpInner::handle_packet(history):{}", super::panic_site(msg)), &format!("sctpassoc {text}"), msg);
     }
+    if let Some(d) = alloc_fail { run.fail("alloc:SctpInner::handle_packet(history)", &format!("sctpassoc {text}"), &d); }
+    { let e = run.dist.entry("alloc_max_ratio_x100:sctpassoc".into()).or_insert(0); if alloc_max > *e { *e = alloc_max; } }
     let out = if panicked.is_some() { "panic".to_string() } else { format!("ok {}", outs.join(" ")) };
     // the session already ran (inputs depend on the association's own state); `exec` records it and applies the
     // process-wide panic / time oracles to the recorded run
